@@ -290,7 +290,8 @@ def run(ctx):
             dgroups.setdefault(key, []).append((m["prev"], y, int(out[1]), c))
             if y != exp:
                 wrong = [j for j in range(n_in) if j >= len(y) or y[j] != exp[j]]
-                stale = [j for j in wrong if j < len(y) and y[j] == m["prev"][j]]
+                # unwritten = still holding the (non-zero) pre-fill; a zero pre-fill cannot be told from a written erasure
+                stale = [j for j in wrong if j < len(y) and y[j] == m["prev"][j] and m["prev"][j] != 0]
                 if stale and len(stale) == len(wrong):
                     stale_geoms.add(g)
                     viol("depuncture-stale-output", f"depuncture [{g}] leaves output position(s) {stale[:8]} unwritten: they keep the previous content of the buffer",
@@ -376,8 +377,10 @@ def run(ctx):
                 exp.append(0)
         if y != exp:
             wrong = [j for j in range(n_in) if j >= len(y) or y[j] != exp[j]]
+            # an unwritten position is established by the direct depuncture cases above; a composition that fails only at such
+            # positions of the same geometry is the same defect and goes under the same key
             stale = [j for j in wrong if j < len(y) and y[j] == p2[j] and exp[j] == 0]
-            key = "depuncture-stale-output" if stale and len(stale) == len(wrong) else "depuncture-puncture-not-identity"
+            key = "depuncture-stale-output" if g in stale_geoms and len(stale) == len(wrong) else "depuncture-puncture-not-identity"
             viol(key, f"depuncture(puncture(x)) [{g}] is not x on the kept positions and 0 elsewhere (first wrong position {wrong[0]})",
                  {"geometry": g, "x": hx(v), "puncture_out_prefill": hx(p1), "depuncture_out_prefill": hx(p2), "wrong_positions": wrong[:16],
                   "expected_at_first": exp[wrong[0]], "actual_at_first": y[wrong[0]] if wrong[0] < len(y) else None, "actual_output": t[0]})
